@@ -46,8 +46,6 @@ structure OpSt where
   counts : Counts
   pending : Counts
 
-abbrev M := ExceptT Exn (StateM OpSt)
-
 /-- `key in db` / a successful `db[key]` -/
 def Store.contains (s : Store) (h : Hash) : Bool :=
   match s.cache with
@@ -63,33 +61,21 @@ def Store.get? (s : Store) (h : Hash) : Option Bytes :=
     | some (some v) => some v
     | _ => Dict.get? s.base h
 
-def dbHas (h : Hash) : M Bool := do return (← get).store.contains h
-
-/-- `db[key] = value` -/
-def dbWrite (h : Hash) (b : Bytes) : M Unit := do
-  let s ← get
-  match s.store.cache with
-  | some c => set { s with store := { s.store with cache := some (Dict.insert c h (some b)) } }
+/-- `db[key] = value`; `none` = the injected failure of the plain dict's `__setitem__` -/
+def Store.write (s : Store) (h : Hash) (b : Bytes) : Option Store :=
+  match s.cache with
+  | some c => some { s with cache := some (Dict.insert c h (some b)) }
   | none =>
-    match s.store.failAfter with
-    | some 0 => throw .writeFailed
-    | some (n+1) => set { s with store := { s.store with base := Dict.insert s.store.base h b, failAfter := some n } }
-    | none => set { s with store := { s.store with base := Dict.insert s.store.base h b } }
+    match s.failAfter with
+    | some 0 => none
+    | some (n+1) => some { s with base := Dict.insert s.base h b, failAfter := some n }
+    | none => some { s with base := Dict.insert s.base h b }
 
-/-- `del db[key]`; `false` stands for the `KeyError` of a plain dict (a ScratchDB never raises) -/
-def dbDel (h : Hash) : M Bool := do
-  let s ← get
-  match s.store.cache with
-  | some c => set { s with store := { s.store with cache := some (Dict.insert c h none) } }; return true
-  | none =>
-    if s.store.base.contains h then
-      set { s with store := { s.store with base := Dict.erase s.store.base h } }; return true
-    else return false
-
-/-- `_set_db_value` -/
-def setDbValue (prune : Bool) (h : Hash) (b : Bytes) : M Unit := do
-  dbWrite h b
-  if prune then modify fun s => { s with counts := s.counts.inc h }
+/-- `del db[key]`; `none` stands for the `KeyError` of a plain dict (a ScratchDB never raises) -/
+def Store.del (s : Store) (h : Hash) : Option Store :=
+  match s.cache with
+  | some c => some { s with cache := some (Dict.insert c h none) }
+  | none => if s.base.contains h then some { s with base := Dict.erase s.base h } else none
 
 structure TrieSt where
   tree : Node
@@ -99,60 +85,99 @@ structure TrieSt where
 
 variable (Hs : Hashing) (blankRootHash : Hash)
 
-def runEv (prune : Bool) (root key : Bytes) : Ev → M Unit
-  | .read h => do
-    if !(← dbHas h) then throw (.missingTrieNode h root key none)
-  | .persist h b => setDbValue prune h b
-  | .prune h => do if prune then modify fun s => { s with pending := s.pending.inc h }
+/-- `_set_db_value`: write, then count (nothing is counted when the write raises) -/
+def setDbValue (prune : Bool) (s : OpSt) (h : Hash) (b : Bytes) : Except Exn OpSt :=
+  match s.store.write h b with
+  | none => .error .writeFailed
+  | some st => .ok { s with store := st, counts := if prune then s.counts.inc h else s.counts }
 
-/-- `_complete_pruning` -/
-def completePruning : M Unit := do
-  let pend := (← get).pending
-  for (key, n) in pend do
-    let cur := (← get).counts.val key
-    if cur ≤ n then
-      -- new_count <= 0: delete from the database, `KeyError` becomes `ValidationError`
-      if !(← dbDel key) then throw (.validation "prune-missing")
-      modify fun s => { s with counts := Dict.erase s.counts key }
-    else
-      modify fun s => { s with counts := Dict.insert s.counts key (cur - n) }
+/-- one event; an event that raises leaves the state as it was -/
+def runEv (prune : Bool) (root key : Bytes) (s : OpSt) : Ev → Except Exn OpSt
+  | .read h => if s.store.contains h then .ok s else .error (.missingTrieNode h root key none)
+  | .persist h b => setDbValue prune s h b
+  | .prune h => .ok (if prune then { s with pending := s.pending.inc h } else s)
 
-/-- `set` / `delete` (value `none`), inside `_prune_on_success`: the body of the `with` block -/
-def opBody (T : TrieSt) (key : Bytes) (val : Option Bytes) : M TrieSt := do
+/-- events in order, stopping at the first one that raises -/
+def runEvs (prune : Bool) (root key : Bytes) : OpSt → List Ev → OpSt × Option Exn
+  | s, [] => (s, none)
+  | s, e :: es =>
+    match runEv prune root key s e with
+    | .ok s' => runEvs prune root key s' es
+    | .error x => (s, some x)
+
+/-- one iteration of `_complete_pruning` -/
+def pruneStep (s : OpSt) (kn : Hash × Nat) : Except Exn OpSt :=
+  let cur := s.counts.val kn.1
+  if cur ≤ kn.2 then
+    -- new_count <= 0: delete from the database, `KeyError` becomes `ValidationError`
+    match s.store.del kn.1 with
+    | none => .error (.validation "prune-missing")
+    | some st => .ok { s with store := st, counts := Dict.erase s.counts kn.1 }
+  else .ok { s with counts := Dict.insert s.counts kn.1 (cur - kn.2) }
+
+/-- `_complete_pruning`: the pending keys in insertion order -/
+def completePruning : OpSt → List (Hash × Nat) → OpSt × Option Exn
+  | s, [] => (s, none)
+  | s, kn :: rest =>
+    match pruneStep s kn with
+    | .ok s' => completePruning s' rest
+    | .error x => (s, some x)
+
+/-- `_set_root_node`, first half: a short old root is scheduled for pruning here -/
+def schedOldRoot (T : TrieSt) (s : OpSt) : OpSt :=
+  if T.prune && T.root != blankRootHash && s.store.contains T.root && !(Hs.hashed T.tree)
+  then { s with pending := s.pending.inc T.root } else s
+
+/-- the tree-level work of `set` / `delete` (value `none`): new root node and event list -/
+def opTree (T : TrieSt) (key : Bytes) (val : Option Bytes) : Node × List Ev :=
+  match val with
+  | some v => if v = [] then deleteE Hs T.tree (nibs key) else setE Hs T.tree (nibs key) v
+  | none => deleteE Hs T.tree (nibs key)
+
+/-- `_set_root_node`, second half: `self.root_hash = self._set_raw_node(root_node)` -/
+def writeRoot (T : TrieSt) (new : Node) (s : OpSt) : Except Exn (OpSt × Hash) :=
+  if isBlank new then .ok (s, blankRootHash)
+  else match setDbValue T.prune s (Hs.hashOf new) (Hs.encOf new) with
+    | .ok s' => .ok (s', Hs.hashOf new)
+    | .error x => .error x
+
+def finishPrune (T : TrieSt) (s : OpSt) : OpSt × Option Exn :=
+  if T.prune then completePruning s s.pending else (s, none)
+
+/-- body of `set` / `delete` inside `_prune_on_success`: state at exit, and the new trie or the
+    exception that left the block -/
+def opCore (T : TrieSt) (key : Bytes) (val : Option Bytes) (s : OpSt) : OpSt × Except Exn TrieSt :=
   -- root_node = self.get_node(self.root_hash)
-  if T.root ≠ blankRootHash then
-    if !(← dbHas T.root) then throw (.missingTrieNode T.root T.root key none)
-  let r := match val with
-    | some v => if v = [] then deleteE Hs T.tree (nibs key) else setE Hs T.tree (nibs key) v
-    | none => deleteE Hs T.tree (nibs key)
-  for ev in r.2 do runEv T.prune T.root key ev
-  -- _set_root_node
-  if T.prune && T.root ≠ blankRootHash then
-    if (← dbHas T.root) then                       -- get_node(old_root_hash) did not raise
-      if !(Hs.hashed T.tree) then                  -- node_body is None: a short root
-        modify fun s => { s with pending := s.pending.inc T.root }
-  let newRoot ← (if isBlank r.1 then pure blankRootHash else do
-    let h := Hs.hashOf r.1
-    setDbValue T.prune h (Hs.encOf r.1)
-    pure h)
-  if T.prune then completePruning
-  return { T with tree := r.1, root := newRoot }
+  if T.root != blankRootHash && !(s.store.contains T.root) then
+    (s, .error (.missingTrieNode T.root T.root key none))
+  else
+    match runEvs T.prune T.root key s (opTree Hs T key val).2 with
+    | (s1, some x) => (s1, .error x)
+    | (s1, none) =>
+      match writeRoot Hs blankRootHash T (opTree Hs T key val).1 (schedOldRoot Hs blankRootHash T s1) with
+      | .error x => (schedOldRoot Hs blankRootHash T s1, .error x)
+      | .ok (s3, newRoot) =>
+        match finishPrune T s3 with
+        | (s4, some x) => (s4, .error x)
+        | (s4, none) => (s4, .ok { T with tree := (opTree Hs T key val).1, root := newRoot })
 
-/-- `set`/`delete` with `_prune_on_success`'s `finally` (pending keys dropped on every exit) -/
-def opSetDel (T : TrieSt) (key : Bytes) (val : Option Bytes) : M TrieSt :=
-  fun s =>
-    let (r, s') := (opBody Hs blankRootHash T key val) { s with pending := [] }
-    (r, { s' with pending := [] })
+/-- `set` / `delete` with `_prune_on_success`: the pending keys start empty and are dropped on
+    every exit (`finally`) -/
+def opSetDel (T : TrieSt) (key : Bytes) (val : Option Bytes) (s0 : OpSt) : OpSt × Except Exn TrieSt :=
+  let r := opCore Hs blankRootHash T key val { s0 with pending := [] }
+  ({ r.1 with pending := [] }, r.2)
 
 /-- `get`: root fetch, then `_traverse_from`'s fetches, then `_get` -/
-def opGet (T : TrieSt) (key : Bytes) : M Bytes := do
-  if T.root ≠ blankRootHash then
-    if !(← dbHas T.root) then throw (.missingTrieNode T.root T.root key (some []))
-  for (h, pre) in traverseReads Hs T.tree (nibs key) [] do
-    if !(← dbHas h) then throw (.missingTrieNode h T.root key (some pre))
-  match getT T.tree (nibs key) with
-  | .ok v => return v
-  | .error _ => throw .getErr
+def opGet (T : TrieSt) (key : Bytes) (s : OpSt) : Except Exn Bytes :=
+  if T.root != blankRootHash && !(s.store.contains T.root) then
+    .error (.missingTrieNode T.root T.root key (some []))
+  else
+    match (traverseReads Hs T.tree (nibs key) []).find? (fun e => !(s.store.contains e.1)) with
+    | some (h, pre) => .error (.missingTrieNode h T.root key (some pre))
+    | none =>
+      match getT T.tree (nibs key) with
+      | .ok v => .ok v
+      | .error _ => .error .getErr
 
 /-- multiset of counted references, as `regenerate_ref_count` walks them: the root, then hashed
     children of hashed (or root) nodes; embedded children are skipped altogether -/
@@ -205,18 +230,11 @@ def World.openAt (w : World) (root : Hash) : Option (World × Nat) :=
     ({ w with tries := w.tries.push { tree := t, root := root, prune := false },
               counts := w.counts.push [] }, w.tries.size)
 
-def World.runTrie {α} (w : World) (i : Nat) (act : TrieSt → M α) : Except Exn α × World :=
-  let st : OpSt := { store := { base := w.base, cache := none, failAfter := w.failAfter },
-                     counts := w.counts[i]!, pending := [] }
-  let (r, st') := act w.tries[i]! st
-  (r, { w with base := st'.store.base, failAfter := st'.store.failAfter,
-               counts := w.counts.set! i st'.counts })
+def World.opSt (w : World) (i : Nat) : OpSt :=
+  { store := { base := w.base, cache := none, failAfter := w.failAfter }, counts := w.counts[i]!, pending := [] }
 
-def World.runBatch {α} (w : World) (b : Batch) (act : TrieSt → M α) : Except Exn α × World × Batch :=
-  let st : OpSt := { store := { base := w.base, cache := some b.cache, failAfter := w.failAfter },
-                     counts := b.counts, pending := [] }
-  let (r, st') := act b.trie st
-  (r, w, { b with cache := st'.store.cache.getD [], counts := st'.counts })
+def World.batchOpSt (w : World) (b : Batch) : OpSt :=
+  { store := { base := w.base, cache := some b.cache, failAfter := w.failAfter }, counts := b.counts, pending := [] }
 
 /-- target of an operation: trie number `i`, or the batch trie of the open block -/
 inductive Target | trie (i : Nat) | batch
@@ -224,23 +242,29 @@ inductive Target | trie (i : Nat) | batch
 def World.setDel (w : World) (tg : Target) (key : Bytes) (val : Option Bytes) : Except Exn Unit × World :=
   match tg with
   | .trie i =>
-    match w.runTrie i (fun T => opSetDel Hs blankRootHash T key val) with
-    | (.ok T', w') => (.ok (), ({ w' with tries := w'.tries.set! i T' } : World).noteRoot T')
-    | (.error e, w') => (.error e, w')
+    let (st', r) := opSetDel Hs blankRootHash w.tries[i]! key val (w.opSt i)
+    let w' : World := { w with base := st'.store.base, failAfter := st'.store.failAfter,
+                               counts := w.counts.set! i st'.counts }
+    match r with
+    | .ok T' => (.ok (), ({ w' with tries := w'.tries.set! i T' } : World).noteRoot T')
+    | .error e => (.error e, w')
   | .batch =>
     match w.batch with
     | none => (.error (.validation "no-batch"), w)
     | some b =>
-      match w.runBatch b (fun T => opSetDel Hs blankRootHash T key val) with
-      | (.ok T', w', b') => (.ok (), ({ w' with batch := some { b' with trie := T' } } : World).noteRoot T')
-      | (.error e, w', b') => (.error e, { w' with batch := some b' })
+      let (st', r) := opSetDel Hs blankRootHash b.trie key val (w.batchOpSt b)
+      let b' : Batch := { b with cache := st'.store.cache.getD [], counts := st'.counts }
+      let w' : World := { w with base := st'.store.base, failAfter := st'.store.failAfter }
+      match r with
+      | .ok T' => (.ok (), ({ w' with batch := some { b' with trie := T' } } : World).noteRoot T')
+      | .error e => (.error e, { w' with batch := some b' })
 
 def World.get (w : World) (tg : Target) (key : Bytes) : Except Exn Bytes :=
   match tg with
-  | .trie i => (w.runTrie i (fun T => opGet Hs blankRootHash T key)).1
+  | .trie i => opGet Hs blankRootHash w.tries[i]! key (w.opSt i)
   | .batch => match w.batch with
     | none => .error (.validation "no-batch")
-    | some b => (w.runBatch b (fun T => opGet Hs blankRootHash T key)).1
+    | some b => opGet Hs blankRootHash b.trie key (w.batchOpSt b)
 
 def World.trieOf (w : World) (tg : Target) : TrieSt :=
   match tg with
